@@ -120,6 +120,18 @@ IRebuild(ks) ==
 CurKeys == Fwd(head, N + 1)
 ISort == IRebuild(SortSeq(CurKeys, LAMBDA a, b : a.n < b.n))
 ICopy == IRebuild(CurKeys)
+\* sort_fields(key=f): sorted(self.__keys, key=f) runs FIRST - a key function that faults makes it
+\* raise before anything is assigned - and only its result is turned into the new OrderedSet
+ISortBy(kf, fn, fm) == IF SortHit(CurKeys, fn, fm) THEN IFail(SortErr(fm))
+                       ELSE IRebuild(MSortBy(CurKeys, kf))
+\* dump(fd) / a parse attempt from a faulting source never touch the object
+IIOFault(kind) == ISame(IF kind = "dump" /\ size = 0 THEN "ok" ELSE "CallerError")
+\* what LNext explores; MC_LinkedSet_quick.cfg substitutes the Quick sets (the faulted calls are
+\* the same no-op on the implementation variables in every mode; MC_LinkedSet.cfg explores all)
+LKeyFns         == KeyFns
+LFaultModes     == FaultModes
+QuickKeyFns     == {[n \in Names |-> n % 2], [n \in Names |-> 0], [n \in Names |-> 3 - n]}
+QuickFaultModes == {"raise"}
 
 IInit == /\ val = [x \in Nodes |-> <<>>] /\ nxt = [x \in Nodes |-> NoNode] /\ prv = [x \in Nodes |-> NoNode]
          /\ head = NoNode /\ tail = NoNode /\ size = 0
@@ -136,6 +148,9 @@ LNext == \/ \E n \in Names : \/ \E s \in Spells, v \in Values : Set(n, s, v) /\ 
          \/ (Sort /\ ISort)
          \/ (Copy /\ ICopy)
          \/ (DumpParse /\ ICopy)
+         \/ \E kf \in LKeyFns : SortBy(kf, NoFault, "none") /\ ISortBy(kf, NoFault, "none")
+         \/ \E fn \in Names, fm \in LFaultModes : SortBy(FaultKf, fn, fm) /\ ISortBy(FaultKf, fn, fm)
+         \/ \E kind \in IOKinds : IOFault(kind) /\ IIOFault(kind)
 LSpec == LInit /\ [][LNext]_vars
 
 ----------------------------------------------------------------------------
@@ -153,6 +168,6 @@ LinksOK    == \A x \in Alive : /\ nxt[x] # NoNode => prv[nxt[x]] = x
 \* res/ires can be left out of the VIEW: no action reads them)
 SameResult == [][ires' = res']_vars
 ImplView   == <<abs, val, nxt, prv, head, tail, size, table, dict>>
-ImplErrAtomic == [][ires' \in {"KeyError", "ValueError"} =>
+ImplErrAtomic == [][ires' \in {"KeyError", "ValueError", "TypeError", "CallerError"} =>
                       UNCHANGED <<val, nxt, prv, head, tail, size, table, dict>>]_vars
 =============================================================================
